@@ -7,7 +7,9 @@ func init() {
 }
 
 type Request struct {
-	TopicNames                         []string `kafka:"min=v0,max=v8,nullable"`
+	// Null means "all topics" from v1 on; in v0 that is spelled as the empty
+	// array and null is not allowed.
+	TopicNames                         []string `kafka:"min=v0,max=v0|min=v1,max=v8,nullable"`
 	AllowAutoTopicCreation             bool     `kafka:"min=v4,max=v8"`
 	IncludeClusterAuthorizedOperations bool     `kafka:"min=v8,max=v8"`
 	IncludeTopicAuthorizedOperations   bool     `kafka:"min=v8,max=v8"`
